@@ -173,8 +173,11 @@ def _hashinfo(ck: Checker) -> None:
     ok = False
     if names:
         for r in walk_own(fd.node):
-            if isinstance(r, ast.Return) and isinstance(r.value, ast.Call) and r.value.args:
-                ok = ok or [norm(a) for a in r.value.args[:2]] == names
+            if isinstance(r, ast.Return) and isinstance(r.value, ast.Call) and (r.value.args or r.value.keywords):
+                kw_ = {k.arg: k.value for k in r.value.keywords}
+                a_name = r.value.args[0] if len(r.value.args) > 0 else kw_.get("name")
+                a_val = r.value.args[1] if len(r.value.args) > 1 else kw_.get("value")
+                ok = ok or (a_name is not None and a_val is not None and [norm(a_name), norm(a_val)] == names)
     ck.require(ok, "C20.hashinfo", fd, fd.node, "from_dict binds the single item as (name, value) and rebuilds HashInfo(name, value)", "HashInfo.from_dict does not rebuild (name, value) from the single dict item in that order")
 
 
